@@ -29,7 +29,8 @@ type c15Sel struct {
 	listAt   ssa.Instruction // instruction of the selection function at which the nodes are listed
 	podList  ssa.Value
 	al       *aliasC
-	scope    []*ssa.Function // the selection function and the repository helpers it reaches
+	scope    []*ssa.Function        // the selection function and the repository helpers it reaches
+	convs    map[*ssa.Function]bool // functions converting the canary nodeSelector into a labels.Selector
 	tpl      func(ssa.Value) bool
 	nb       ssa.Value // resolved replicas
 	nbCall   *ssa.Call
@@ -218,6 +219,8 @@ func runC15(r *Run) {
 	r.RuleDoc("C15.R6", "restart-ordered candidates before selection; previously selected names that are still fit are kept")
 	r.RuleDoc("C15.R7", "node re-validation (the selection call) runs whenever a canary is recorded: no extra guard")
 	r.RuleDoc("C15.R9", "node fitness is tested with the pod template of the replica set matching spec.template (the one recorded as Status.Canary.ReplicaSet)")
+	r.RuleDoc("C15.R12", "the conversion of the canary nodeSelector maps every label-selector operator like apimachinery's LabelSelectorAsSelector")
+	r.RuleDoc("C15.R13", "the anti-affinity quota counts, besides the candidate under consideration, only nodes of the selection being built")
 	r.RuleDoc("C15.R8", "the candidate node list is listed with the converted canary nodeSelector whenever one is set")
 	r.Floor("C15.R1", 3)
 	r.Floor("C15.R2", 2)
@@ -228,6 +231,8 @@ func runC15(r *Run) {
 	r.Floor("C15.R7", 1)
 	r.Floor("C15.R8", 1)
 	r.Floor("C15.R9", 2)
+	r.Floor("C15.R12", 1)
+	r.Floor("C15.R13", 1)
 	r.NotCovered("quality of the preference beyond `sorted by restart count before selection` and the anti-affinity quota arithmetic; behaviour over node churn histories between reconciles; requirements silently dropped inside ConvertLabelSelector (invalid operator); the node list being served from a stale cache")
 
 	s := c15FindSelection(r, "C15.R1")
@@ -238,6 +243,8 @@ func runC15(r *Run) {
 	c15Distinct(r, s, apps)
 	c15Valid(r, s, apps)
 	c15Selector(r, s)
+	c15OperatorTable(r, s)
+	c15Quota(r, s)
 	c15Replicas(r, "C15.R3", s)
 	c15TemplateSource(r, s)
 	c15CapWith(r, "C15.R4", s, apps)
@@ -456,10 +463,12 @@ func c15Selector(r *Run, s *c15Sel) {
 					if e, ok := o.(*ssa.Extract); ok {
 						if c, ok := e.Tuple.(*ssa.Call); ok && e.Index == 0 && len(c.Call.Args) >= 1 && isSelField(c.Call.Args[len(c.Call.Args)-1]) {
 							filtered = true
+							c15NoteConverter(s, &c.Call)
 						}
 					}
 					if c, ok := o.(*ssa.Call); ok && len(c.Call.Args) >= 1 && isSelField(c.Call.Args[len(c.Call.Args)-1]) {
 						filtered = true
+						c15NoteConverter(s, &c.Call)
 					}
 				}
 			}
@@ -1337,4 +1346,379 @@ func c15Entry(r *Run) string {
 		return shortFunc(rec)
 	}
 	return "-"
+}
+
+// ---------------------------------------------------------------------------------------------
+// R12: operator table of the selector conversion
+
+func c15NoteConverter(s *c15Sel, c *ssa.CallCommon) {
+	if cal := staticCallee(c); cal != nil {
+		if s.convs == nil {
+			s.convs = map[*ssa.Function]bool{}
+		}
+		s.convs[cal] = true
+	}
+}
+
+// c15OpTable reads the operator table of a selector conversion: for every labels.NewRequirement call
+// whose operator argument depends on a comparison of an `.Operator` field with a constant, the pairs
+// (source operator constant -> selection operator constant) over all paths to the call.
+func c15OpTable(fn *ssa.Function) (table map[string]string, problems []string) {
+	table = map[string]string{}
+	k := newKeyer(fn)
+	loops := sliceLoopsC(fn)
+	for _, ci := range callsIn(fn) {
+		c, ok := ci.(*ssa.Call)
+		if !ok || calleeName(&c.Call) != "k8s.io/apimachinery/pkg/labels.NewRequirement" || len(c.Call.Args) < 3 {
+			continue
+		}
+		// table form: the operator is looked up in a package-level map keyed by the source operator
+		tabled := false
+		for _, o := range origins(c.Call.Args[1]) {
+			var lk *ssa.Lookup
+			switch x := o.(type) {
+			case *ssa.Lookup:
+				lk = x
+			case *ssa.Extract:
+				lk, _ = x.Tuple.(*ssa.Lookup)
+			}
+			if lk == nil || !hasPathSuffix(unwrap(lk.Index), "Operator") {
+				continue
+			}
+			ld, isLd := lk.X.(*ssa.UnOp)
+			if !isLd {
+				continue
+			}
+			g, isG := ld.X.(*ssa.Global)
+			if !isG {
+				continue
+			}
+			entries, okE := c15GlobalMapEntries(g)
+			if !okE {
+				problems = append(problems, "the operator table "+g.Name()+" is not a constant map literal")
+				continue
+			}
+			tabled = true
+			for src, dst := range entries {
+				if old, seen := table[src]; seen && old != dst {
+					problems = append(problems, fmt.Sprintf("%s is mapped to both %q and %q", src, old, dst))
+				}
+				table[src] = dst
+			}
+		}
+		if tabled {
+			continue
+		}
+		from := fn.Blocks[0]
+		var in map[*ssa.BasicBlock]bool
+		for _, l := range loops {
+			if l.In[c.Block()] && (in == nil || len(l.In) < len(in)) {
+				from, in = l.Body, l.In
+			}
+		}
+		isEnd := func(b *ssa.BasicBlock) bool { return b == c.Block() }
+		stop := func(b *ssa.BasicBlock) bool { return b == c.Block() || (in != nil && !in[b]) }
+		paths, okp := enumPaths(fn, k, from, isEnd, stop, 5000)
+		if !okp {
+			problems = append(problems, "path cap exceeded")
+			continue
+		}
+		for _, p := range paths {
+			src := ""
+			for _, f := range p.Facts {
+				cf, okc := decodeCmpC(f)
+				if !okc || cf.Op != "==" || !cf.Pol {
+					continue
+				}
+				for _, side := range [][2]ssa.Value{{cf.X, cf.Y}, {cf.Y, cf.X}} {
+					if cs, isC := constString(side[0]); isC && hasPathSuffix(unwrap(side[1]), "Operator") {
+						src = cs
+					}
+				}
+			}
+			if src == "" {
+				continue // operator not chosen by a comparison on this path (e.g. the matchLabels requirement)
+			}
+			dst, isC := constString(p.Resolve(c.Call.Args[1]))
+			if !isC {
+				problems = append(problems, "operator argument is not a constant on the path for "+src)
+				continue
+			}
+			if old, seen := table[src]; seen && old != dst {
+				problems = append(problems, fmt.Sprintf("%s is mapped to both %q and %q", src, old, dst))
+			}
+			table[src] = dst
+		}
+	}
+	return table, problems
+}
+
+func c15OperatorTable(r *Run, s *c15Sel) {
+	// reference: k8s.io/apimachinery/pkg/apis/meta/v1.LabelSelectorAsSelector (body built on demand)
+	var ref *ssa.Function
+	if sp := r.Prog.SSAPkg(pkgMetaV1); sp != nil {
+		sp.Build()
+		ref = sp.Func("LabelSelectorAsSelector")
+	}
+	if ref == nil || len(ref.Blocks) == 0 {
+		r.Undecided("C15.R12", "selector operator table", "-", "-", "the reference conversion metav1.LabelSelectorAsSelector is not available")
+		return
+	}
+	want, _ := c15OpTable(ref)
+	if len(want) == 0 {
+		r.Undecided("C15.R12", "selector operator table", "-", "-", "no operator table could be read from metav1.LabelSelectorAsSelector")
+		return
+	}
+	n := 0
+	for _, fn := range sortedFuncs(s.convs) {
+		if fn == ref || len(fn.Blocks) == 0 || !r.Prog.IsRuleSite(fn) {
+			continue // the library conversion itself is the reference
+		}
+		n++
+		got, problems := c15OpTable(fn)
+		var keys []string
+		for kk := range want {
+			keys = append(keys, kk)
+		}
+		sort.Strings(keys)
+		for _, kk := range keys {
+			g, has := got[kk]
+			detail := fmt.Sprintf("%s -> %q (reference %q)", kk, g, want[kk])
+			if !has {
+				detail = kk + " is not converted (the requirement would be dropped)"
+			}
+			r.Check("C15.R12", "operator "+kk, r.Prog.Pos(fn.Pos()), shortFunc(fn),
+				"a matchExpression with this operator is converted to the same selection operator as by apimachinery's LabelSelectorAsSelector", has && g == want[kk], detail)
+		}
+		r.Check("C15.R12", "operator table is a function", r.Prog.Pos(fn.Pos()), shortFunc(fn), "every source operator is mapped to one selection operator, read as a constant", len(problems) == 0, strings.Join(problems, "; "))
+	}
+	if n == 0 {
+		o := r.Check("C15.R12", "selector operator table", "-", "-", "the canary nodeSelector is converted by repository code", true, "the conversion is apimachinery's own (or no selector conversion was found by R8)")
+		o.Trivial = true
+	}
+}
+
+// ---------------------------------------------------------------------------------------------
+// R13: the anti-affinity quota counts only nodes of the selection being built
+
+// c15ChainValues: every slice value on the construction chain of v (phis, appends, re-slicings, cells).
+func c15ChainValues(v ssa.Value) map[ssa.Value]bool {
+	out := map[ssa.Value]bool{}
+	var rec func(v ssa.Value)
+	rec = func(v ssa.Value) {
+		if v == nil || out[v] {
+			return
+		}
+		out[v] = true
+		switch x := v.(type) {
+		case *ssa.Phi:
+			for _, e := range x.Edges {
+				rec(e)
+			}
+		case *ssa.Slice:
+			rec(x.X)
+		case *ssa.Call:
+			if builtinCallC(x, "append") != nil {
+				base, _, spread := appendPartsC(x)
+				rec(base)
+				if spread != nil {
+					rec(spread)
+				}
+			}
+		case *ssa.UnOp:
+			if a, ok := x.X.(*ssa.Alloc); ok && x.Op == token.MUL {
+				for _, rf := range refs(a) {
+					if st, ok := rf.(*ssa.Store); ok && st.Addr == ssa.Value(a) {
+						rec(st.Val)
+					}
+				}
+			}
+		}
+	}
+	rec(v)
+	return out
+}
+
+func c15Quota(r *Run, s *c15Sel) {
+	fn := s.fn
+	// quota maps: integer maps made in the selection function whose lookups are compared, together
+	// with the resolved replicas, in a branch condition
+	quota := map[*ssa.MakeMap]bool{}
+	for _, b := range fn.Blocks {
+		iff := lastIfC(b)
+		if iff == nil || !dependsOn(iff.Cond, func(v ssa.Value) bool { return v == s.nb }) {
+			continue
+		}
+		for _, b2 := range fn.Blocks {
+			for _, in := range b2.Instrs {
+				lk, ok := in.(*ssa.Lookup)
+				if !ok {
+					continue
+				}
+				mm, ok := lk.X.(*ssa.MakeMap)
+				if ok && dependsOn(iff.Cond, func(v ssa.Value) bool { return v == ssa.Value(lk) }) {
+					quota[mm] = true
+				}
+			}
+		}
+	}
+	if len(quota) == 0 {
+		o := r.Check("C15.R13", "anti-affinity quota", r.Prog.Pos(fn.Pos()), shortFunc(fn), "the selection applies a per-value quota", true, "no quota map compared with the resolved replicas: nothing to decide")
+		o.Trivial = true
+		return
+	}
+	chain := c15ChainValues(s.store.Val)
+	inChain := func(v ssa.Value) bool {
+		for cv := range chain {
+			if sameValueC(s.k, v, cv) {
+				return true
+			}
+		}
+		return false
+	}
+	selHeaders := map[*ssa.BasicBlock]bool{}
+	for _, a := range s.classify() {
+		if a.class == "new" && a.loop != nil {
+			selHeaders[a.loop.Header] = true
+		}
+	}
+	loops := sliceLoopsC(fn)
+	n := 0
+	for _, b := range fn.Blocks {
+		for _, in := range b.Instrs {
+			mu, ok := in.(*ssa.MapUpdate)
+			if !ok {
+				continue
+			}
+			mm, isMM := mu.Map.(*ssa.MakeMap)
+			if !isMM || !quota[mm] {
+				continue
+			}
+			if c, isC := constInt(mu.Value); isC && c == 0 {
+				continue // initialisation of a counter
+			}
+			n++
+			pos := r.Prog.Pos(instrPos(mu))
+			// (i) inside the selection loop: the candidate under consideration
+			inSelection := false
+			for _, l := range loops {
+				if selHeaders[l.Header] && l.In[b] {
+					inSelection = true
+				}
+			}
+			if inSelection {
+				r.Check("C15.R13", "quota counts the candidate under consideration", pos, shortFunc(fn), "inside the selection loop the counter is advanced for the node being considered", true, "")
+				continue
+			}
+			// (ii) elsewhere (seeding the counters): only for a node that is a member of the selection being built
+			fs := s.ff.At(b)
+			member, why := false, "no membership fact"
+			for _, f := range fs {
+				if !f.Pol {
+					continue
+				}
+				if call, isCall := f.V.(*ssa.Call); isCall && len(call.Call.Args) == 2 {
+					cal := staticCallee(&call.Call)
+					if cal != nil && (membershipFuncC(cal) || strings.HasPrefix(funcName(cal), "slices.Contains")) {
+						if inChain(call.Call.Args[0]) {
+							member = true
+						} else {
+							why = "membership is tested in " + descValueC(call.Call.Args[0]) + ", which is not the selection being built"
+						}
+					}
+				}
+				if cf, okc := decodeCmpC(f); okc && cf.Op == "==" {
+					for _, side := range []ssa.Value{cf.X, cf.Y} {
+						for _, l := range loops {
+							if l.In[b] && l.isElem(s.k, side) {
+								if inChain(l.Slice) {
+									member = true
+								} else if !s.freshLoop(l) {
+									why = "membership is tested in " + descValueC(l.Slice) + ", which is not the selection being built"
+								}
+							}
+						}
+					}
+				}
+			}
+			r.Check("C15.R13", "quota seeded from the selection being built", pos, shortFunc(fn),
+				"outside the selection loop a per-value counter is advanced only for a node that is a member of the list being built (the kept, still valid names), so that dropped names do not use up the quota", member, why)
+		}
+	}
+	if n == 0 {
+		o := r.Check("C15.R13", "anti-affinity quota", r.Prog.Pos(fn.Pos()), shortFunc(fn), "the quota counters are advanced", true, "no counter update found")
+		o.Trivial = true
+	}
+}
+
+// c15GlobalMapEntries reads a package-level map variable initialised with a literal of constant
+// string keys and values (in the package initialiser) and never written elsewhere.
+func c15GlobalMapEntries(g *ssa.Global) (map[string]string, bool) {
+	var mm *ssa.MakeMap
+	for _, rf := range refs(g) {
+		if st, ok := rf.(*ssa.Store); ok && st.Addr == ssa.Value(g) {
+			m, isMM := st.Val.(*ssa.MakeMap)
+			if !isMM || mm != nil {
+				return nil, false
+			}
+			mm = m
+		}
+	}
+	if mm == nil {
+		// referrers of globals are not tracked by go/ssa: scan the package initialiser
+		if g.Pkg == nil {
+			return nil, false
+		}
+		ini := g.Pkg.Func("init")
+		if ini == nil {
+			return nil, false
+		}
+		for _, b := range ini.Blocks {
+			for _, in := range b.Instrs {
+				if st, ok := in.(*ssa.Store); ok && st.Addr == ssa.Value(g) {
+					m, isMM := st.Val.(*ssa.MakeMap)
+					if !isMM || mm != nil {
+						return nil, false
+					}
+					mm = m
+				}
+			}
+		}
+		// no other function of the package may store to the global or update the map through it
+		for _, mem := range g.Pkg.Members {
+			f, isF := mem.(*ssa.Function)
+			if !isF || f == ini {
+				continue
+			}
+			for _, b := range f.Blocks {
+				for _, in := range b.Instrs {
+					switch x := in.(type) {
+					case *ssa.Store:
+						if x.Addr == ssa.Value(g) {
+							return nil, false
+						}
+					case *ssa.MapUpdate:
+						if ld, ok := x.Map.(*ssa.UnOp); ok && ld.X == ssa.Value(g) {
+							return nil, false
+						}
+					}
+				}
+			}
+		}
+	}
+	if mm == nil {
+		return nil, false
+	}
+	out := map[string]string{}
+	for _, rf := range refs(mm) {
+		if mu, ok := rf.(*ssa.MapUpdate); ok && mu.Map == ssa.Value(mm) {
+			k, ok1 := constString(mu.Key)
+			v, ok2 := constString(mu.Value)
+			if !ok1 || !ok2 {
+				return nil, false
+			}
+			out[k] = v
+		}
+	}
+	return out, len(out) > 0
 }
